@@ -321,3 +321,12 @@ TEXT["C07"].update(
 TEXT["C08"].update(
     engine="verus+kani+bounded",
     level=TEXT["C08"]["level"] + " Which address the DNS ACL judges: emission-point precondition on the ACL layer (the peer of the datagram / accepted connection) in the R9 slices of run_udp / run_tcp (Verus); bounded, end to end over real loopback sockets (engine B): 3 ACL tables x TCP clients from 127.0.0.1/.2/.3 -- REFUSED iff the first rule matching the CLIENT's address does not grant dns-recursion.")
+
+TEXT["C12"].update(
+    level=TEXT["C12"]["level"] + " Completeness of the decoder (Verus): parse refuses a message only for being shorter than the 240-octet fixed part, for hlen > 16, for a wrong magic cookie or for an option stream the RFC decoding dec_opts refuses (parse_options: Err ==> dec_opts is None) -- so decode(encode(m)) exists for every hardware-address length 0..=16.")
+TEXT["C14"].update(
+    level=TEXT["C14"]["level"] + " 'Any size up to 65535 octets' (Verus, unbounded): pkt_max(m) is the size of m with every name written in full; push_rr never appends more than rr_max(rr) (compression only shortens: assumed contract of push_compressed_domain, bounded by Kani); serialise_with_size drops a record only when it has to (pkt_max(m) < size ==> all section counts and TC as in m), hence serialise() returns every message with pkt_max(m) <= 65535 whole and within 65535 octets.")
+TEXT["C04"].update(
+    level=TEXT["C04"]["level"] + " 'Complete whenever it fits' (Verus, unbounded): pkt_max(m) <= size ==> no record dropped, counts and TC as in the message (also exactly at the limit); the reply never exceeds pkt_max(m).")
+TEXT["C05"].update(
+    level=TEXT["C05"]["level"] + " Upstream TCP reply framing (Verus): TcpNameserver::read_reply slices the connection buffer only within its length (inbuf[2..2+l], rule R6c keeps the bounds as an obligation).")
